@@ -33,6 +33,7 @@ void Resource::lock(OpType opType) {
 
     if (m_queue.empty() && (m_activeOp == OpType::None || (m_activeOp == opType && opType == OpType::Read))) {
         m_activeOp = opType;
+        ++m_activeCount;
     } else {
         auto id = m_idCounter++;
 
@@ -41,9 +42,9 @@ void Resource::lock(OpType opType) {
         m_cv.wait(lock, [id, this] {
             return id < m_upperUnlockBound;
         });
-    }
 
-    ++m_activeCount;
+        // the holder was already counted by select() when its batch was admitted
+    }
 }
 
 void Resource::unlock(OpType opType) {
@@ -87,7 +88,10 @@ void Resource::select() {
     auto op = m_queue.front();
     m_queue.pop_front();
 
+    // count every member of the admitted batch right now: a member that is slow
+    // to wake up must keep the resource busy even if its siblings have already left
     m_activeOp = op.type;
+    m_activeCount = static_cast<size_t>(op.upperBound - m_upperUnlockBound);
     m_upperUnlockBound = op.upperBound;
 }
 } // tulz::rwp
